@@ -69,10 +69,8 @@ func (eval Evaluator[T]) Evaluate(input interface{}, p interface{}, targetScale 
 	logDegree := bits.Len64(uint64(polyVec.Value[0].Degree()))
 	logSplit := bignum.OptimalSplit(logDegree)
 
-	var odd, even = false, false
-	for _, p := range polyVec.Value {
-		odd, even = odd || p.IsOdd, even || p.IsEven
-	}
+	// the parities of the powers at least one polynomial of the vector uses
+	odd, even := polyVec.IsOdd(), polyVec.IsEven()
 
 	// Computes all the powers of two with relinearization, from X^2 up to 2^(logDegree-1), one by one:
 	// a power basis given by the caller may hold a power of two without holding the smaller ones
